@@ -1,7 +1,35 @@
-(* Props/C10.v — independence of aliasing and of the receiver's previous contents (theorems to follow). *)
+(* Props/C10.v — results are independent of aliasing and of the receiver's
+   previous contents.  Statements only.  `sim z z'` = the two receivers have the
+   same precision and mode; `ores_oeq` = the results are observationally equal
+   (class, sign, precision, mode, accuracy, and for finite values exponent and
+   digits).  The buffer clause of the property (capacity, stale words, in-place
+   word movement inside the dec methods) is exercised by the correspondence run only. *)
 From Coq Require Import ZArith.
-From Dec Require Import L3.Decimal L3.Arith.
+From Dec Require Import L3.Decimal L3.Round L3.Arith L3.IndepProofs.
 Open Scope Z_scope.
+
+Theorem C10_add_receiver_independent : forall zx zy z z' x y,
+  sim z z' -> dform x = Ffinite -> dform y = Ffinite -> ores_oeq (Add zx zy z x y) (Add zx zy z' x y).
+Proof. exact Add_indep. Qed.
+Print Assumptions C10_add_receiver_independent.
+
+Theorem C10_mul_receiver_independent : forall z z' x y,
+  sim z z' -> dform x = Ffinite -> dform y = Ffinite -> ores_oeq (Mul z x y) (Mul z' x y).
+Proof. exact Mul_indep. Qed.
+Print Assumptions C10_mul_receiver_independent.
+
+Theorem C10_quo_receiver_independent : forall z z' x y,
+  sim z z' -> dform x = Ffinite -> dform y = Ffinite -> ores_oeq (Quo z x y) (Quo z' x y).
+Proof. exact Quo_indep. Qed.
+Print Assumptions C10_quo_receiver_independent.
+
+(* the aliasing flags are not read for finite operands: the outcome is identical whether or
+   not the receiver is one (or both) of the operands *)
+Theorem C10_add_alias_independent : forall zx zy zx' zy' z x y, dform x = Ffinite -> dform y = Ffinite ->
+  Add zx zy z x y = Add zx' zy' z x y.
+Proof. exact Add_alias_flags_irrelevant. Qed.
+Print Assumptions C10_add_alias_independent.
+
 Example C10_examples :
   let x := mkDec [1250000000000000000] 1 3 ToNearestEven Exact Ffinite false in
   let junk := mkDec [7; 9999999999999999999] 40 3 ToNearestEven Above Ffinite true in
